@@ -324,24 +324,24 @@ Definition serve_found (c : mcfg) (q : req) (always : hdrs) (f : found) (age : Z
                  else with_status always (if stale then s_stale else s_hit) in
   let always2 := hset always1 s_age (format_int age) in
   let rr := get_range (hget (q_hdrs q) s_range) in
-  let fdsize := Z.of_nat (length (f_body f)) in
   match rr with
-  | Some r =>
-    if fdsize =? 0 then bare 503 else
-    let '(st', hs) :=
-        if m_status m =? 200 then
-          set_ranged_headers rr (match atoi (hget (m_resph m) s_content_length) with Some v => v | None => 0 end) 200
-        else (m_status m, None) in
+  | Some _ =>
+    (* the stored size is the resource length; no 206 announced = the whole entry is sent *)
+    let '(st', hs, rr') :=
+        if m_status m =? 200 then set_ranged_headers rr (m_size m) 200 else (m_status m, None, rr) in
     if (m_status m =? 200) && (400 <=? st') then bare st' else
     let always3 := match hs with
                    | Some (cl, cr) => hset (hset always2 s_content_length cl) s_content_range cr
                    | None => always2
                    end in
     let h := suffix_etag c (clear_and_copy (m_resph m) always3) in
-    match send_slice (f_body f) (rr_start r (m_size m)) (rr_size r (m_size m)) with
-    | Some b => mk_client (q_method q) st' h b
-    | None => let cl := mk_client (q_method q) st' h [] in
-              mkClient KOrigin st' (wire_hdrs h) [] (negb (str_eqb (q_method q) s_HEADm))   (* seek failed after the header went out *)
+    match rr', st' =? 206 with
+    | Some r, true =>
+      match send_slice (f_body f) (rr_start r (m_size m)) (rr_size r (m_size m)) with
+      | Some b => mk_client (q_method q) st' h b
+      | None => mk_client (q_method q) st' h []
+      end
+    | _, _ => mk_client (q_method q) st' h (take (f_body f) 0 (m_size m))
     end
   | None =>
     let h := suffix_etag c (clear_and_copy (m_resph m) always2) in
@@ -432,7 +432,7 @@ Fixpoint caching_func (fuel : nat) (c : mcfg) (st : mstate) (q : req) (override_
           end in
       let name := fs_name (mc_hash c) k in
       let rr := get_range (hget (q_hdrs q1) s_range) in
-      let h1 := match rr with Some _ => hdel (q_hdrs q1) s_range | None => q_hdrs q1 end in
+      let h1 := hdel (q_hdrs q1) s_range in
       let '(client_vh, _, client_vv) := revalidate_headers h1 in
       let '(h2, used) :=
           match old_meta with
@@ -451,15 +451,17 @@ Fixpoint caching_func (fuel : nat) (c : mcfg) (st : mstate) (q : req) (override_
         let always1 := add_resp_headers always_rf rule_f in
         (* Response.ContentLength: the declared length, -1 when the origin sent none (chunked) *)
         let resp_cl := match atoi (hget (rs_hdrs rp) s_content_length) with Some v => v | None => -1 end in
-        let '(st_over, rhs) := if (match rr with Some _ => true | None => false end) && (rs_status rp =? 200)
-                               then set_ranged_headers rr resp_cl 200 else (rs_status rp, None) in
-        if (match rr with Some _ => true | None => false end) && (rs_status rp =? 200) && (400 <=? st_over)
-        then mkCf st2 (bare st_over) (rt_log out) else
+        let dirs := get_directives (rs_hdrs rp) in
+        (* a range is cut only out of a complete, cacheable 200 that goes through the cache file *)
+        let ranged := (match rr with Some _ => true | None => false end) && (rs_status rp =? 200)
+                      && negb (do_not_cache dirs) && negb should_skip in
+        let '(st_over, rhs, rr1) := if ranged then set_ranged_headers rr resp_cl 200 else (rs_status rp, None, None) in
+        if ranged && (400 <=? st_over) then mkCf st2 (bare st_over) (rt_log out) else
+        let rr := if st_over =? 206 then rr1 else None in
         let always2 := match rhs with
                        | Some (cl, cr) => hset (hset always1 s_content_length cl) s_content_range cr
                        | None => always1
                        end in
-        let dirs := get_directives (rs_hdrs rp) in
         let h3 := if nonempty used then hdel h2 used else h2 in
         if nonempty used && (rs_status rp =? 304) && negb (do_not_cache dirs) then
           (* SetRevalidatedAndClose, then serve from the refreshed entry *)
@@ -570,7 +572,7 @@ Fixpoint caching_func (fuel : nat) (c : mcfg) (st : mstate) (q : req) (override_
               | Some r =>
                 match send_slice body (rr_start r n) (rr_size r n) with
                 | Some b => mkCf st5 (mk_client (q_method q) st_over hc b) log4
-                | None => mkCf st5 (mkClient KOrigin st_over (wire_hdrs hc) [] (negb (str_eqb (q_method q) s_HEADm))) log4
+                | None => mkCf st5 (mk_client (q_method q) st_over hc []) log4
                 end
               | None => mkCf st5 (mk_client (q_method q) st_over hc body) log4
               end
